@@ -1,8 +1,12 @@
 //verif:dest internal/verifh/c07/c07g.go
 //verif:replace@C07g fmt.Print = c07gPrint
+//verif:replace@C16e fmt.Print = c07gPrint
 //verif:replace@C07g fmt.Println = c07gPrintln
+//verif:replace@C16e fmt.Println = c07gPrintln
 //verif:replace@C07g (*os.File).Write = c07gFileWrite
+//verif:replace@C16e (*os.File).Write = c07gFileWrite
 //verif:replace@C07g (*os.File).WriteString = c07gFileWriteString
+//verif:replace@C16e (*os.File).WriteString = c07gFileWriteString
 
 package c07
 
